@@ -25,9 +25,11 @@ variables.
 
 from collections.abc import MutableMapping
 from contextlib import contextmanager
+from functools import partial
 from struct import pack, unpack, unpack_from
 
-from .ebpf import AssembleError, Expression, Opcode, Map, FuncId
+from .ebpf import (
+    AssembleError, Expression, Opcode, Map, Memory, FuncId)
 from .bpf import (
     MapType, UpdateFlags, create_map, delete_elem, get_next_key, lookup_elem,
     lookup_and_delete_elem, update_elem)
@@ -90,8 +92,12 @@ class HashGlobalVarDesc:
             update_elem(fd, pack("B", self.count),
                         pack("q" if self.fmt.islower() else "Q", value))
             return
+        get_address = value.get_address
+        if isinstance(value, Memory) and value.fmt not in ("Q", "q", "x", "A"):
+            # the map copies 8 bytes: extend narrower variables first
+            get_address = partial(Expression.get_address, value)
         with ebpf.save_registers([3]):
-            with value.get_address(3, True, True):
+            with get_address(3, True, True):
                 with ebpf.save_registers([0, 1, 2, 4, 5]), \
                         ebpf.get_stack(4) as stack:
                     ebpf.r1 = ebpf.get_fd(ebpf.__dict__[self.name].fd)
